@@ -109,6 +109,9 @@ func (d DID) String() string {
 func ecdsaPubKeyUnmarshaler(curve elliptic.Curve) crypto.PubKeyUnmarshaller {
 	return func(data []byte) (crypto.PubKey, error) {
 		x, y := elliptic.UnmarshalCompressed(curve, data)
+		if x == nil || y == nil {
+			return nil, fmt.Errorf("malformed compressed public key")
+		}
 
 		ecdsaPublicKey := &ecdsa.PublicKey{
 			Curve: curve,
